@@ -56,6 +56,8 @@ class World:
         self.sdl = render.sdl_exec(types, roots)
         self.engines = {}
         self.case = None        # current case state (table, calls, gates ...)
+        self.hook_calls = 0     # calls of the counting directive's hooks / of the counting default type resolver
+        self.tr_calls = 0
         self.lib_error = None
 
     # ---- raw value -> python -----------------------------------------------------
@@ -126,6 +128,30 @@ class World:
 
         if "type" in trs:
             t.TypeResolver("P", schema_name=sn)(type_type_resolver)
+        if cfg.get("hooks"):
+            @t.Directive("hk", schema_name=sn)
+            class Hk:
+                async def on_post_input_coercion(self, directive_args, next_directive, parent_node, value, ctx):
+                    world.hook_calls += 1
+                    return await next_directive(parent_node, value, ctx)
+
+                async def on_argument_execution(self, directive_args, next_directive, parent_node, argument_definition_node, argument_node, value, ctx):
+                    world.hook_calls += 1
+                    return await next_directive(parent_node, argument_definition_node, argument_node, value, ctx)
+
+                async def on_field_execution(self, directive_args, next_resolver, parent, args, ctx, info):
+                    world.hook_calls += 1
+                    return await next_resolver(parent, args, ctx, info)
+
+                async def on_pre_output_coercion(self, directive_args, next_directive, value, ctx, info):
+                    world.hook_calls += 1
+                    return await next_directive(value, ctx, info)
+
+            from tartiflette.resolver.default import default_type_resolver
+
+            def counting_type_resolver(result, ctx, info, abstract_type):
+                world.tr_calls += 1
+                return default_type_resolver(result, ctx, info, abstract_type)
 
         def mk(tn, fn):
             fd_type = self.types[tn]["fields"][fn]["type"]
@@ -193,7 +219,10 @@ class World:
             kw["error_coercer"] = cfg["coercer"]
         if "engine" in trs:
             kw["custom_default_type_resolver"] = engine_type_resolver
-        eng = main_loop().run(t.create_engine(self.sdl, schema_name=sn, **kw))
+        if cfg.get("hooks"):
+            kw["custom_default_type_resolver"] = counting_type_resolver
+        sdl = render.sdl_exec(self.types, self.roots, hooks=True) if cfg.get("hooks") else self.sdl
+        eng = main_loop().run(t.create_engine(sdl, schema_name=sn, **kw))
         self.engines[key] = eng
         return eng
 
